@@ -592,6 +592,21 @@ def link_creation_cases():
     return out
 
 
+RETRIED = []
+
+
+def run_mc(module, cfg, workers=None, timeout=3000):
+    """one model-checking run; a run that ended with an error which is not a violated invariant (resource trouble on
+    a shared machine: out of memory, killed JVM, time-out) is repeated once; what happened is kept for the evidence"""
+    mc = None
+    for attempt in (1, 2):
+        mc = tlc.run(module, cfg, workers=workers or WORKERS, timeout=timeout, heap=HEAP)
+        if mc.violated or not mc.errors:
+            return mc
+        RETRIED.append({"run": cfg, "attempt": attempt, "rc": mc.rc, "errors": mc.errors[:3], "tail": mc.stdout[-600:]})
+    return mc
+
+
 def run_trace(module, path, expect):
     """one trace-validation run; a run that TLC did not complete (resource trouble on a shared machine) is retried once"""
     tr = None
@@ -629,7 +644,7 @@ def main(argv):
     timing = rep.extra.setdefault("timing_s", {})
     try:
         cfgname = f"MC_LinksParse_{tier}"
-        mc = tlc.run("MC_LinksParse", cfgname, workers=WORKERS, timeout=3000, heap=HEAP)
+        mc = run_mc("MC_LinksParse", cfgname)
         rep.add_tlc(cfgname, mc)
         cases = []
         if mc.errors:
@@ -756,6 +771,8 @@ def main(argv):
                     rep.violation("dump-keeps-target:list-item", "dump() keeps the link target inside the items of a list of classes", case)
                 else:
                     rep.violation(f"{cl[4:]}:{shape_tag(c['shape'])}", f"links applied on parse: {cl}", case)
+        if RETRIED:
+            rep.extra["tlc_runs_repeated"] = RETRIED
         return rep.finish()
     finally:
         pool.terminate()
